@@ -126,7 +126,9 @@ func (rs *retryState) validateToken(now time.Time, token, srcConnID, dstConnID [
 
 	// We allow for tokens created in the future (up to the validity period),
 	// which likely indicates that the system clock was adjusted backwards.
-	if d := abs(now.Sub(when)); d > retryTokenValidityPeriod {
+	// (Compare both signs rather than taking abs: Sub saturates, and the
+	// absolute value of the most negative duration is still negative.)
+	if d := now.Sub(when); d > retryTokenValidityPeriod || d < -retryTokenValidityPeriod {
 		return nil, false
 	}
 
